@@ -51,7 +51,7 @@ ContentLen(content) == IF content = <<>> THEN 0 ELSE content[1].count + ContentL
 (* the value of a column for node n of record r *)
 ColType(col) ==
   CASE col \in {"name", "path", "ext", "dir", "mode"} -> "text"
-    [] col \in {"size", "uid", "gid", "hardlinks", "line_count", "length(name)", "inode", "blocks"} -> "int"
+    [] col \in {"size", "uid", "gid", "hardlinks", "line_count", "length(name)", "length(name) * 2", "hardlinks + 1", "inode", "blocks"} -> "int"
     [] col \in {"modified"} -> "date"
     [] OTHER -> "bool"
 
@@ -67,6 +67,8 @@ Attr(r, n, col) ==
     [] col = "gid" -> IntV(s.gidn)
     [] col = "hardlinks" -> IntV(s.nlinkn)
     [] col = "length(name)" -> IntV(Len(NameC(w, n)))
+    [] col = "length(name) * 2" -> IntV(2 * Len(NameC(w, n)))          \* (values derived from a column, for `column OP expression`)
+    [] col = "hardlinks + 1" -> IntV(s.nlinkn + 1)
     [] col = "line_count" -> IF k = "file" THEN IntV(CountByte(w.nodes[n].content, 10)) ELSE None
     [] col = "modified" -> DateV(s.mtime)
     [] col = "is_dir" -> BoolV(TypeNibble(m) = 4)
